@@ -28,12 +28,13 @@ META = {
         "assumptions": ["behaviour the documentation leaves open (cancelled Compute as a read for access expiry; pre/post-read deadline in GetEntry; refresh rule for volunteered bulk keys; whether a load result survives an eviction of its key during the same bulk call) is accepted either way"],
     },
     "C03": {
-        "technique": "deterministic simulation: clock steered onto deadlines (sub-tick, no sweep), every operation kind applied to expired-unswept keys, incl. save/load; model visibility oracle",
+        "technique": "deterministic simulation: clock steered onto deadlines (sub-tick, no sweep), every operation kind applied to expired-unswept keys, incl. save/load; model visibility oracle; concurrent histories (clock moved at barriers or asynchronously by tasks) checked with porcupine against a map with deadlines / deadline intervals",
         "level_text": "Seeded search that drives keys into the expired-but-unswept state (clock advanced to deadline-1/deadline/deadline+1, no CleanUp) and applies every public operation kind to them, comparing results, events and state with the model; a second engine saves and reloads caches holding such entries. The op-kind x key-state matrix is reported so an uncovered cell is visible.",
         "level_note": SEQ_NOTE,
-        "rule": "one case = (configuration with expiry, operation sequence [, save/load plan]) or (configuration, per-task programs with barriers) x one schedule. Non-trivial: at least 3 different operation kinds were applied to an expired-but-unswept key (sequence engine), a save/load round trip ran (persistence engine), or operations of different tasks overlapped on a key and the clock moved at a barrier (concurrent engine). Distinct: hash of the case (and context-switch sequence).",
+        "rule": "one case = (configuration with expiry, operation sequence [, save/load plan]) or (configuration, per-task programs with barriers) x one schedule. Non-trivial: at least 3 different operation kinds were applied to an expired-but-unswept key (sequence engine), a save/load round trip ran (persistence engine), or operations of different tasks overlapped on a key and the clock moved at a barrier / while they ran (concurrent engines). Distinct: hash of the case (and context-switch sequence).",
         "components": comp(),
-        "assumptions": ["concurrent form: rounds of 2-4 tasks separated by barriers at which the clock moves onto / around the deadlines (the property's 'clock only moves between operations'); per-key histories are checked with porcupine against the map with deadlines for the built-in policies; a GetEntryQuietly miss during a concurrent overwrite and a SetExpiresAfter lost to a racing write are accepted (the property forbids seeing dead values, not missing live ones)"],
+        "assumptions": ["concurrent form: rounds of 2-4 tasks separated by barriers at which the clock moves onto / around the deadlines (the property's 'clock only moves between operations'); per-key histories are checked with porcupine against the map with deadlines for the built-in policies; a GetEntryQuietly miss during a concurrent overwrite and a SetExpiresAfter lost to a racing write are accepted (the property forbids seeing dead values, not missing live ones)",
+                        "asynchronous-clock form: tasks advance the clock while other operations run; the model keeps deadline bounds [lo, hi] per entry (an operation may see the entry iff hi > its earliest clock value and may miss it iff lo <= its latest), does not narrow them after an observation, treats the lock-free lookup of ComputeIfAbsent/ComputeIfPresent as a separate unreported read, widens the bounds on a racing SetExpiresAfter, and accepts an Expiration event before the deadline (DESIGN.md section 11 gives the reason for each)"],
     },
     "C07": {
         "technique": "deterministic simulation: weights/maxima/clock sequences; every Overflow/Expiration event checked against the model's physical weight and deadlines at that moment",
@@ -93,9 +94,9 @@ META = {
     },
     "C02": {
         "technique": "deterministic simulation: seeded schedules (random-walk / PCT / bursts / windows) over instrumented otter; recorded histories checked per key with porcupine against a sequential map with split loads and eviction events",
-        "level_text": "2-4 simulated client goroutines issue Set/SetIfAbsent/GetIfPresent/GetEntry/Compute*/Invalidate/loader-backed Get on 1-6 keys while the real table grows, evicts and maintenance runs (default go executor, caller-runs, queued executor task); every context switch is decided by the seeded scheduler at sync/atomic granularity. Per-key histories stamped with the global event sequence are checked by porcupine; compute callbacks must run exactly once and see the value they replace.",
+        "level_text": "2-4 simulated client goroutines issue Set/SetIfAbsent/GetIfPresent/GetEntry/Compute*/Invalidate/loader-backed Get on 1-6 keys while the real table grows, evicts and maintenance runs (default go executor, caller-runs, queued executor task); every context switch is decided by the seeded scheduler at sync/atomic granularity. Per-key histories stamped with the global event sequence are checked by porcupine; compute callbacks must run exactly once and see the value they replace. A second engine forces an expiry policy and lets tasks advance the clock while other operations are in flight; its histories are checked against the map with deadline intervals (see C03).",
         "level_note": CONC_NOTE,
-        "rule": "one case = (configuration without reachable expiry, prefill, per-task programs) x one schedule. Non-trivial: at least two operations of different tasks on the same key overlapped in time and one of them writes. Distinct: hash of (case, context-switch sequence).",
+        "rule": "one case = (configuration without reachable expiry, or with expiry and clock advances as operations; prefill, per-task programs) x one schedule. Non-trivial: at least two operations of different tasks on the same key overlapped in time and one of them writes (first engine), or operations overlapped and the clock moved (second engine). Distinct: hash of (case, context-switch sequence).",
         "components": comp(),
         "assumptions": ["a loading Get is modelled as two steps (miss observed; result installed or discarded) as in DESIGN.md; a write landing between the miss and the start of the load is therefore not protected (documented observation)",
                         "an automatic removal takes effect at some instant inside the table computation that invokes OnAtomicDeletion (between the handler call and the release of the bucket lock)",
